@@ -246,6 +246,15 @@ static void chk_buf(ssl_t *ssl)
     if (ssl->outsize > SSL_MAX_BUF_SIZE) c08_fail("buffer-beyond-max:outsize", "outsize %d", (int) ssl->outsize);
     if (ssl->inlen < 0 || ssl->inlen > ssl->insize) c08_fail("buffer-beyond-max:inlen", "inlen %d insize %d", (int) ssl->inlen, (int) ssl->insize);
     if (ssl->outlen < 0 || ssl->outlen > ssl->outsize) c08_fail("buffer-beyond-max:outlen", "outlen %d outsize %d", (int) ssl->outlen, (int) ssl->outsize);
+    /* handshake reassembly buffer: the library's own limit for one handshake message is 64 KiB (hsLenMax in parseSSLHandshake,
+       SSL_DEFAULT_IN_HS_SIZE); TLS keeps the size in fragTotal (message + header), DTLS in fragLenStored */
+    if (ssl->fragMessage) {
+        unsigned long sz = ssl->fragTotal;
+#ifdef USE_DTLS
+        if (ACTV_VER(ssl, v_dtls_any)) sz = ssl->fragLenStored;
+#endif
+        if (sz > 65536 + 64) c08_fail("buffer-beyond-max:fragMessage", "handshake reassembly buffer of %lu bytes", sz);
+    }
 }
 
 /* ------------------------------------------------------------ global reset --- */
